@@ -1,0 +1,105 @@
+//! Verification hooks (only compiled with `--cfg eigerco_lumina_verif`).
+//!
+//! `PrunerSim` starts the real [`Pruner`] over `Daser::verif_mocked()` and hands the commands the
+//! pruner sends to the daser to an external harness through public types only.
+
+use std::sync::Arc;
+use std::time::Duration;
+
+use blockstore::Blockstore;
+use tokio::sync::mpsc::error::TryRecvError;
+use tokio::sync::oneshot;
+
+use super::{Pruner, PrunerArgs};
+use crate::daser::{Daser, DaserCmd};
+use crate::events::{EventChannel, EventSubscriber};
+use crate::store::Store;
+use crate::test_utils::MockDaserHandle;
+
+/// Public mirror of the commands the `Pruner` sends to the `Daser`.
+#[derive(Debug)]
+pub enum VerifDaserCmd {
+    /// `DaserCmd::UpdateHighestPrunableHeight`
+    UpdateHighestPrunableHeight(u64),
+    /// `DaserCmd::UpdateNumberOfPrunableBlocks`
+    UpdateNumberOfPrunableBlocks(u64),
+    /// `DaserCmd::WantToPrune`
+    WantToPrune {
+        /// Height the pruner wants to remove.
+        height: u64,
+        /// Answer channel (`true` = allowed).
+        respond_to: oneshot::Sender<bool>,
+    },
+}
+
+/// The real `Pruner` running over a mocked `Daser`.
+pub struct PrunerSim {
+    pruner: Pruner,
+    daser_handle: MockDaserHandle,
+}
+
+impl PrunerSim {
+    /// Start the real pruner worker (must be called inside a tokio runtime).
+    ///
+    /// Returns the sim and a subscriber of the (private) event channel the pruner publishes to.
+    pub fn start<S, B>(
+        store: Arc<S>,
+        blockstore: Arc<B>,
+        block_time: Duration,
+        pruning_window: Duration,
+        sampling_window: Duration,
+    ) -> (Self, EventSubscriber)
+    where
+        S: Store + 'static,
+        B: Blockstore + 'static,
+    {
+        let events = EventChannel::new();
+        let event_sub = events.subscribe();
+        let (daser, daser_handle) = Daser::verif_mocked();
+        let pruner = Pruner::start(PrunerArgs {
+            daser: Arc::new(daser),
+            store,
+            blockstore,
+            event_pub: events.publisher(),
+            block_time,
+            pruning_window,
+            sampling_window,
+        });
+        (
+            PrunerSim {
+                pruner,
+                daser_handle,
+            },
+            event_sub,
+        )
+    }
+
+    /// Non-blocking: next command the pruner sent to the (mocked) daser, if any.
+    ///
+    /// `Err(description)` when the channel is closed.
+    pub fn try_next_daser_cmd(&mut self) -> Result<Option<VerifDaserCmd>, String> {
+        match self.daser_handle.cmd_rx.try_recv() {
+            Ok(DaserCmd::UpdateHighestPrunableHeight { value }) => {
+                Ok(Some(VerifDaserCmd::UpdateHighestPrunableHeight(value)))
+            }
+            Ok(DaserCmd::UpdateNumberOfPrunableBlocks { value }) => {
+                Ok(Some(VerifDaserCmd::UpdateNumberOfPrunableBlocks(value)))
+            }
+            Ok(DaserCmd::WantToPrune { height, respond_to }) => {
+                Ok(Some(VerifDaserCmd::WantToPrune { height, respond_to }))
+            }
+            Err(TryRecvError::Empty) => Ok(None),
+            Err(TryRecvError::Disconnected) => Err("Daser command channel closed".into()),
+        }
+    }
+
+    /// Stop the worker.
+    pub fn stop(&self) {
+        self.pruner.stop();
+    }
+
+    /// Wait until the worker is completely stopped.
+    pub async fn join(&self) {
+        self.pruner.join().await;
+    }
+}
